@@ -490,7 +490,7 @@ def fold_histories(ck: Checker, R: str, only=None, observers=(), n_hist=None):
                 if name == 'into_bench' and before['inputs'] and not rec['problems']:
                     # C14 names no error: a well-formed circuit with an input must be converted
                     rec['problems'].append(f'into_bench raises {err} on a well-formed circuit with inputs after the history {" ; ".join(trail)} (start state {h % len(STARTS)})')
-                if name == '__copy__' and not rec['problems']:
+                if name == '__copy__' and not rec['problems'] and R.startswith('C02'):
                     # C02: "a copy is equal to ... its original" -- of every state public calls that returned have produced
                     rec['problems'].append(f'copy.copy raises {err} on the well-formed circuit left by the history {" ; ".join(trail[:-1]) or "(start state)"} (start state {h % len(STARTS)})')
                 # a refused call: the history goes on from whatever state it left only if that state is still well formed
